@@ -76,7 +76,13 @@ ComputeFloat(F, q, w0) ==
              ELSE [mant |-> m4, exp |-> p3, valid |-> TRUE, tr |-> t1 \o <<"L_Definite">>, dbg |-> FALSE]
 
 \* compute_error(q, w)
+\* The code indexes the 5^q table without a range check here: outside [P5Min, P5Max] it panics (index out of
+\* bounds; reachable only with mantissa = u64::MAX and truncated digits, finding F4).  The model is total: it
+\* reports that outcome instead of failing to evaluate.
 ComputeError(F, q, w0, t) ==
+  IF q < P5Min \/ q > P5Max
+  THEN [mant |-> <<>>, exp |-> 0, valid |-> FALSE, tr |-> t \o <<"L_IndexPanic">>, dbg |-> TRUE]
+  ELSE
   LET lz == Lz64(w0)
       w == Shl(w0, lz)
       hi == ProductApprox(q, w, F.mbits + 3).hi
